@@ -39,6 +39,10 @@ class Fatal(BaseException):
     """the only non-Exception raised by generated bodies"""
 
 
+class ScratchCorrupted(Exception):
+    """a body keeps working state on `self` across an await (as user nodes do); another execution touched it"""
+
+
 class CollabErr(Exception):
     """raised by event managers / stores according to their raise plan"""
 
@@ -263,7 +267,15 @@ async def abody(self_, kwargs):
     if (run.nodes.get(nid) or {}).get('mode') == 'gated' and run.loop is not None and hasattr(run.loop, 'add_external'):
         from verifkit.vloop import Gate
 
+        # like a user node that keeps intermediate state on `self` while it awaits I/O
+        token = (run.tag, ent['seq'])
+        self_._vk_scratch = token
         await Gate(run.loop, ('gate', run.tag, nid, ent['seq']))
+        if getattr(self_, '_vk_scratch', None) != token:
+            ent['end'] = next_seq()
+            ent['outcome'] = 'corrupted'
+            raise ScratchCorrupted(f'{nid}: state kept on self by run {run.tag} was overwritten by '
+                                   f'{getattr(self_, "_vk_scratch", None)}')
     return _finish(run, self_, nid, inv, ent, kwargs)
 
 
@@ -291,11 +303,12 @@ def make_event_manager(idx, gated=False, raise_plan=None, hooks=('on_pipeline_st
         key = (idx, name)
         occ = run.ev_counts.get(key, 0) + 1
         run.ev_counts[key] = occ
-        run.rec(kind='event', mgr=idx, hook=name, node=node_id, occ=occ, **payload)
+        ent = run.rec(kind='event', mgr=idx, hook=name, node=node_id, occ=occ, done=None, **payload)
         if gated and run.loop is not None and hasattr(run.loop, 'add_external'):
             from verifkit.vloop import Gate
 
             await Gate(run.loop, ('ev', run.tag, node_id or name, next_seq()))
+        ent['done'] = next_seq()  # the callback has returned (stays None if the callback was cancelled inside)
         if raise_plan.get(f'{name}:{occ}'):
             raise CollabErr(f'event manager {idx} {name}#{occ}')
 
